@@ -52,6 +52,10 @@ impl<T> From<Result<T>> for ErrorCode {
 pub extern "C" fn anoncreds_get_current_error(error_json_p: *mut *const c_char) -> ErrorCode {
     trace!("anoncreds_get_current_error");
 
+    if error_json_p.is_null() {
+        return ErrorCode::Input;
+    }
+
     let error = rust_string_to_c(get_current_error_json());
     unsafe { *error_json_p = error };
 
